@@ -103,6 +103,14 @@ func (w *faultWriter) Write(p []byte) (int, error) {
 	return w.buf.Write(p)
 }
 
+// faultBufWriter: the same destination looking like an in-memory buffer with a size cap (it has the accessor
+// methods of one); what a destination can do besides Write says nothing about whether its writes fail
+type faultBufWriter struct{ *faultWriter }
+
+func (w faultBufWriter) Bytes() []byte  { return w.buf.Bytes() }
+func (w faultBufWriter) Len() int       { return w.buf.Len() }
+func (w faultBufWriter) String() string { return w.buf.String() }
+
 type faultRW struct {
 	hdr http.Header
 	w   *faultWriter
@@ -187,6 +195,8 @@ func c14Registry() *minify.M {
 	return m
 }
 
+const c14Unregistered = "text/x-nothing-registered"
+
 // c14Streaming: minifiers that pass data on while reading, so that how many writes happen depends on the chunking
 func c14Streaming(mt string) bool {
 	return mt == "text/x-copy" || mt == "text/x-cmd-files" || mt == "text/x-cmd-pipe"
@@ -229,9 +239,19 @@ func c14Exec(m *minify.M, c c14Case) (bad string) {
 	errC14R := fr.err
 	errC14W := c14WriterErr(c.werr) // (shadows the sentinel: the comparisons below use this case's error)
 	fw := &faultWriter{k: wk, err: errC14W, budget: 100*(c.refW+len(c.input)+2) + 1000}
+	var dst io.Writer = fw
+	if (len(c.input)+c.wk+c.chunk)%2 == 0 {
+		dst = faultBufWriter{fw}
+	}
 	readerFault := c.rk >= 0
 	writerFault := c.wk >= 0 && c.wk < c.refW
 	judge := func(err error) string {
+		if c.mt == c14Unregistered {
+			if err == nil {
+				return "nil error although nothing is registered for the type"
+			}
+			return "" // the call fails before it reads: whichever error it reports, it reports one
+		}
 		if c14Streaming(c.mt) {
 			writerFault = fw.fired // the number of writes of a streaming minifier depends on the chunking
 		}
@@ -272,11 +292,17 @@ func c14Exec(m *minify.M, c c14Case) (bad string) {
 	}
 	switch c.entry {
 	case "direct":
-		return judge(m.Minify(c.mt, fw, fr))
+		return judge(m.Minify(c.mt, dst, fr))
 	case "reader":
 		// the consumer is us: only reader faults apply
 		rd := m.Reader(c.mt, fr)
 		out, err := io.ReadAll(rd)
+		if c.mt == c14Unregistered {
+			if err == nil {
+				return fmt.Sprintf("Reader wrapper: nothing is registered for the type, yet Read delivered %d bytes and a clean end of stream", len(out))
+			}
+			return ""
+		}
 		if readerFault {
 			if err == nil {
 				return "Reader wrapper: nil error from Read although the source failed"
@@ -296,7 +322,7 @@ func c14Exec(m *minify.M, c c14Case) (bad string) {
 	case "writer", "respwriter":
 		var wc io.WriteCloser
 		if c.entry == "writer" {
-			wc = m.Writer(c.mt, fw)
+			wc = m.Writer(c.mt, dst)
 		} else {
 			req := httptest.NewRequest("GET", "/x", nil)
 			rw := &faultRW{hdr: http.Header{}, w: fw}
@@ -464,6 +490,7 @@ func c14Inputs(run *core.Run, maxFile int) []c14Input {
 		ins = append(ins, c14Input{"text/x-cmd-files", fmt.Sprintf("cmdfiles#%d", i), bytes.Repeat([]byte("payload for cp "), n/15+1)[:n]},
 			c14Input{"text/x-cmd-pipe", fmt.Sprintf("cmdpipe#%d", i), bytes.Repeat([]byte("payload for cat "), n/16+1)[:n]})
 	}
+	ins = append(ins, c14Input{c14Unregistered, "unregistered#0", []byte("plain text for a type that has no minifier, long enough to be read in several chunks. ")})
 	// generated JSON texts
 	for i := 0; i < run.N(10, 60); i++ {
 		r := run.CaseRand("json", i, run.N(10, 60)/2)
